@@ -494,7 +494,14 @@ def rule_own_fields(ctx: Ctx, rep: Report) -> None:
     rule_own_fields_forwarded(ctx, rep, "C09.own_fields", ('btclib.psbt.psbt_view',), 8)
 
 
+def rule_params_forwarded_(ctx: Ctx, rep: Report) -> None:
+    """C09.params_forwarded: a parameter is handed on to callees that have a parameter of the same name (see sigcommon.rule_params_forwarded)."""
+    from rules.sigcommon import rule_params_forwarded
+    rule_params_forwarded(ctx, rep, "C09.params_forwarded", ('btclib.script.sig_hash', 'btclib.psbt.psbt_view'), 20)
+
+
 RULES = [
+    ("C09.params_forwarded", rule_params_forwarded_),
     ("C09.own_fields", rule_own_fields),
     ("C09.bip341", rule_bip341),
     ("C09.bip143", rule_bip143),
